@@ -771,16 +771,30 @@ fn cmd_deepcase(path: &str, stack_kb: usize) {
 fn cmd_deeppath(v: usize, stack_kb: usize, path: &str) {
     let path = path.to_string();
     let run = move || {
+        // OP;OP*n;(OP;OP)*n  - `*n` repeats an opcode or a parenthesised group
         let mut ops: Vec<String> = Vec::new();
-        for it in path.split(';') {
-            match it.split_once('*') {
-                Some((o, n)) => {
-                    for _ in 0..n.parse::<usize>().unwrap() {
-                        ops.push(o.to_string());
-                    }
+        let mut rest = path.as_str();
+        while !rest.is_empty() {
+            let (item, tail) = if rest.starts_with('(') {
+                let close = rest.find(')').expect("unbalanced group");
+                let after = &rest[close + 1..];
+                let end = after.find(';').unwrap_or(after.len());
+                (&rest[..close + 1 + end], after[end..].trim_start_matches(';'))
+            } else {
+                let end = rest.find(';').unwrap_or(rest.len());
+                (&rest[..end], rest[end..].trim_start_matches(';'))
+            };
+            let (body, count) = match item.rsplit_once('*') {
+                Some((b, n)) => (b, n.parse::<usize>().unwrap()),
+                None => (item, 1),
+            };
+            let group: Vec<&str> = body.trim_start_matches('(').trim_end_matches(')').split(';').collect();
+            for _ in 0..count {
+                for o in &group {
+                    ops.push(o.to_string());
                 }
-                None => ops.push(it.to_string()),
             }
+            rest = tail;
         }
         let version = Version::try_from(v).unwrap();
         let mut g = Generator::new(version).with_ext_opcodes(true).with_buffer_opcodes(v >= 5);
